@@ -14,6 +14,8 @@ import (
 	"math/big"
 
 	"github.com/google/tink/go/subtle"
+
+	secp256k1pb "github.com/hyperledger/aries-framework-go/component/kmscrypto/crypto/tinkcrypto/primitive/proto/secp256k1_go_proto"
 )
 
 var errInvalidSecp256K1Signature = errors.New("secp256k1_verifier: invalid signature")
@@ -63,6 +65,15 @@ func (e *ECDSAVerifier) Verify(signatureBytes, data []byte) error {
 	signature, err := DecodeSecp256K1Signature(signatureBytes, e.encoding)
 	if err != nil {
 		return fmt.Errorf("secp256k1_verifier: %w", err)
+	}
+
+	// an IEEE P1363 signature consists of exactly two scalars of the curve's size. The decoder also takes shorter and
+	// zero-padded forms, other byte strings would verify as the same signature.
+	if e.encoding == secp256k1pb.Secp256K1SignatureEncoding_Bitcoin_IEEE_P1363.String() {
+		scalarSize := (e.publicKey.Curve.Params().BitSize + 7) / 8 //nolint:gomnd
+		if len(signatureBytes) != 2*scalarSize {
+			return fmt.Errorf("secp256k1_verifier: invalid IEEE_P1363 signature size")
+		}
 	}
 
 	hashed, err := subtle.ComputeHash(e.hashFunc, data)
